@@ -822,6 +822,56 @@ example :
      ["acme".toList, "lib_v1".toList, "admin".toList, "audit".toList, "types".toList, "__init__.py".toList]].all
       (fun f => (responseNames o (shapeOf nm ps) templatesDefault).contains f) = true := by decide +kernel
 
+/-! ### Dependency-only files contribute no directory -/
+
+theorem renderView_view (o : Opts) (nm : Naming) (tname : Str) (t : TPath) (view : Path) (services protos : List Str)
+    (f : Path) (hf : f ∈ renderView o nm tname t view services protos) :
+    ∃ svc proto, f = getFilename ⟨nm, view, svc, proto⟩ t := by
+  unfold renderView at hf
+  split at hf
+  · obtain ⟨p, _, rfl⟩ := List.mem_map.mp hf
+    exact ⟨none, some p, rfl⟩
+  · split at hf
+    · split at hf
+      · obtain ⟨sv, _, rfl⟩ := List.mem_map.mp hf
+        exact ⟨some sv, none, rfl⟩
+      · simp at hf
+    · simp only [List.mem_singleton] at hf
+      exact ⟨none, none, hf⟩
+
+/-- **Nothing is emitted for dependency-only files — directories included.**  `shapeOf` is built from the TARGET protos
+only, and every file any template renders is `getFilename` at a view that is the API package itself (`[]`) or a
+non-empty prefix of the sub-package of some TARGET proto: whatever the packages of the dependency files are (longer
+than the API package or not), they supply no `%sub` directory. -/
+theorem rendered_views_from_targets (o : Opts) (nm : Naming) (ps : List ProtoAt) (tname : Str) (f : Path)
+    (hf : f ∈ renderTemplate o (shapeOf nm ps) tname) :
+    ∃ v, (v = [] ∨ (v ≠ [] ∧ ∃ p ∈ ps, ∃ w, p.sub = v ++ w)) ∧
+      ∃ svc proto, f = getFilename ⟨nm, v, svc, proto⟩ (parseTemplate tname) := by
+  unfold renderTemplate at hf
+  simp only at hf
+  split at hf
+  · simp at hf
+  · split at hf
+    · simp at hf
+    · split at hf
+      · rcases List.mem_append.mp hf with h | h
+        · obtain ⟨sp, hsp, hin⟩ := List.mem_flatMap.mp h
+          simp only [shapeOf, List.mem_map] at hsp
+          obtain ⟨v, hv, rfl⟩ := hsp
+          obtain ⟨hne, q, hq, w, hw⟩ := (views_exact _).2 v hv
+          obtain ⟨p, hp, rfl⟩ := List.mem_map.mp hq
+          exact ⟨v, Or.inr ⟨hne, p, hp, w, hw⟩, renderView_view _ _ _ _ _ _ _ f hin⟩
+        · split at h <;> exact ⟨[], Or.inl rfl, renderView_view _ _ _ _ _ _ _ f h⟩
+      · exact ⟨[], Or.inl rfl, renderView_view _ _ _ _ _ _ _ f hf⟩
+
+/-- e.g. target `lib.v1` with one file: whatever else is in the request, no file of the response lies in a `v1/`
+directory below the package root (`google.iam.v1` as a dependency would suggest one) -/
+example :
+    let o : Opts := ⟨[['g','r','p','c']], false, false, false⟩
+    let nm : Naming := ⟨[], ['l','i','b'], ['v','1'], ['l','i','b','_','v','1']⟩
+    (responseNames o (shapeOf nm [⟨[], "lib".toList, ["library".toList]⟩]) templatesDefault).all
+      (fun f => !(["lib_v1".toList, "v1".toList] <+: f)) = true := by decide +kernel
+
 /-! ### The "private" rule is about TEMPLATE names, never about the names of the files a template yields -/
 
 def typesTemplate : Str := "%namespace/%name_%version/%sub/types/%proto.py.j2".toList
